@@ -250,6 +250,9 @@ func (e *Enc) evalExpr(x Expr, env *Env) (TV, error) {
 		if tv, ok := e.pkgConst(env.pkg, n.Name); ok {
 			return tv, nil
 		}
+		if tv, ok := e.pkgGlobal(env, n.Name); ok {
+			return tv, nil
+		}
 		return TV{}, fmt.Errorf("unknown name %q", n.Name)
 	case *OldE:
 		c := env.child()
@@ -856,4 +859,24 @@ func (e *Enc) wfHeapTerm(t string, ty types.Type) {
 	case *types.Interface:
 		e.fact(fmt.Sprintf("(wfVal %s)", t))
 	}
+}
+
+// pkgGlobal reads a package-level variable of the contract's package in the environment's state.
+func (e *Enc) pkgGlobal(env *Env, name string) (TV, bool) {
+	if env.spec != nil {
+		return TV{}, false
+	}
+	for _, sp := range e.w.prog.AllPackages() {
+		if sp.Pkg.Path() != env.pkg {
+			continue
+		}
+		g, ok := sp.Members[name].(*ssa.Global)
+		if !ok {
+			return TV{}, false
+		}
+		p := e.placeOf(g)
+		t := deref(g.Type())
+		return TV{e.placeLoad(env.st, p), e.sortOf(t), t}, true
+	}
+	return TV{}, false
 }
